@@ -19,4 +19,6 @@ ASSUME Out("keyed_2", Keyed(2))
 ASSUME Out("keyed_3", Keyed(3))
 ASSUME Out("keyeddeep", KeyedDeep)
 ASSUME Out("confusable", Confusable)
+ASSUME Out("objptr", ObjPtr)
+ASSUME Out("ptrdeep", PtrDeep)
 =============================================================================
